@@ -47,15 +47,43 @@ bool fa_shaped(const Desc& d) { for (auto& t : d.trans) if (std::get<1>(t).size(
 
 // load `text` into encoding enc with a state dictionary and dump it again with that dictionary
 // returns false if the library rejected the text with a std::exception (what() in *err)
+// The classes offer several name-preserving overloads (text or parsed description; dictionary or translator
+// over a dictionary; dump to text or to a description).  Which pair is used is drawn from the text itself, so
+// a replay takes the same one.
+// (some of the declared overloads have no definition in the library: LoadFromAutDesc with a translator for the tree
+// encodings, LoadFromAutDesc with a dictionary for bdd-td; they cannot be called at all)
+template <class A> struct Caps { static const bool desc_dict = true, desc_transl = false; };
+template <> struct Caps<VATA::ExplicitFiniteAut> { static const bool desc_dict = true, desc_transl = true; };
+template <> struct Caps<VATA::BDDTopDownTreeAut> { static const bool desc_dict = false, desc_transl = false; };
+template <class A> void load_by(A& a, int how, VATA::Parsing::TimbukParser& parser, const std::string& text, StateDict& dict) {
+	typedef VATA::AutBase::StateType ST;
+	if (how == 1) { if constexpr (Caps<A>::desc_dict) { VATA::Util::AutDescription d = parser.ParseString(text); a.LoadFromAutDesc(d, dict); return; } }
+	ST cnt = 0; VATA::AutBase::StringToStateTranslWeak tr(dict, [&cnt](const std::string&) { return cnt++; });
+	if (how == 2) { a.LoadFromString(parser, text, tr); return; }
+	if (how == 3) { if constexpr (Caps<A>::desc_transl) { VATA::Util::AutDescription d = parser.ParseString(text); a.LoadFromAutDesc(d, tr); return; } }
+	a.LoadFromString(parser, text, dict);
+}
 bool load_dump(int enc, const std::string& text, std::string& dumped, std::string* err) {
 	VATA::Parsing::TimbukParser parser; VATA::Serialization::TimbukSerializer ser; StateDict dict;
+	uint64_t h = hash_str(text); int how = int(h % 4), out = int((h / 4) % 3);
 	try {
 		switch (enc) {
 			case 0: { VATA::Util::AutDescription a = parser.ParseString(text); dumped = ser.Serialize(a); break; }
-			case 1: { VATA::ExplicitTreeAut a; VATA::ExplicitTreeAut::AlphabetType al(new VATA::ExplicitTreeAut::OnTheFlyAlphabet()); a.SetAlphabet(al); a.LoadFromString(parser, text, dict); dumped = a.DumpToString(ser, dict); break; }
-			case 2: { VATA::ExplicitFiniteAut a; a.LoadFromString(parser, text, dict); dumped = a.DumpToString(ser, dict); break; }
-			case 3: { VATA::BDDBottomUpTreeAut a; a.LoadFromString(parser, text, dict); dumped = a.DumpToString(ser, dict); break; }
-			default: { VATA::BDDTopDownTreeAut a; a.LoadFromString(parser, text, dict); dumped = a.DumpToString(ser, dict); break; }
+			case 1: {
+				VATA::ExplicitTreeAut a; VATA::ExplicitTreeAut::AlphabetType al(new VATA::ExplicitTreeAut::OnTheFlyAlphabet()); a.SetAlphabet(al); load_by(a, how, parser, text, dict);
+				if (out == 0) dumped = a.DumpToString(ser, dict);
+				else if (out == 1) { VATA::AutBase::StateBackTranslStrict bt(dict.GetReverseMap()); dumped = a.DumpToString(ser, bt); }
+				else { VATA::Util::AutDescription d = a.DumpToAutDesc(dict); dumped = ser.Serialize(d); }
+				break; }
+			case 2: {
+				VATA::ExplicitFiniteAut a; load_by(a, how, parser, text, dict);
+				if (out == 1) { VATA::AutBase::StateBackTranslStrict bt(dict.GetReverseMap()); dumped = a.DumpToString(ser, bt); } else dumped = a.DumpToString(ser, dict);
+				break; }
+			case 3: { VATA::BDDBottomUpTreeAut a; load_by(a, how, parser, text, dict); dumped = a.DumpToString(ser, dict); break; }
+			default: {
+				VATA::BDDTopDownTreeAut a; load_by(a, how, parser, text, dict);
+				if (out == 1) { VATA::AutBase::StateBackTranslStrict bt(dict.GetReverseMap()); dumped = a.DumpToString(ser, bt); } else dumped = a.DumpToString(ser, dict);
+				break; }
 		}
 	} catch (const std::exception& e) { if (err) *err = e.what(); return false; }
 	return true;
